@@ -1,6 +1,7 @@
 package harness
 
 import (
+	"math/big"
 	"bytes"
 	"context"
 	"encoding/hex"
@@ -361,6 +362,12 @@ func c08Check(n *node.Node, op C08Op, addrs []string, blocks []eth.Block) string
 				if gt == nil || !bytes.Equal(gt.Data, nt.Input) || !bytes.Equal(gt.From, nt.From) {
 					return fmt.Sprintf("block %d tx %d: missing or changed", nb.Num, nt.Idx)
 				}
+				// every other field of the transaction as the source reported it
+				if !bytes.Equal(gt.To, nt.To) || uint64(gt.Nonce) != nt.Nonce || uint64(gt.Type) != uint64(nt.Type) ||
+					gt.Value.ToBig().Cmp(bigOrZero(nt.Value)) != 0 || gt.GasPrice.ToBig().Cmp(bigOrZero(nt.GasPrice)) != 0 ||
+					gt.MaxFeePerGas.ToBig().Cmp(bigOrZero(nt.MaxFee)) != 0 || gt.MaxPriorityFeePerGas.ToBig().Cmp(bigOrZero(nt.MaxPrio)) != 0 {
+					return fmt.Sprintf("block %d tx %d: a transaction field differs from the source's (to/nonce/type/value/gas price/fee caps)", nb.Num, nt.Idx)
+				}
 			}
 		}
 		if strings.Contains(op.Flags, "l") {
@@ -546,4 +553,11 @@ func init() {
 		}
 		return RunC08(t, plan, st, extra, keepLog)
 	}
+}
+
+func bigOrZero(b *big.Int) *big.Int {
+	if b == nil {
+		return new(big.Int)
+	}
+	return b
 }
